@@ -152,6 +152,11 @@ var c08Pure = core.Mon(c08, "repeat-and-interleave", func(w *core.W, c *PureCase
 	w.Count("field_analyses")
 	// a formula without now / toDay does not read the clock: the same outcome when the wall clock says 2038 or 1930
 	// (virtual clock of the harness build, see tools/mkoverlay.py)
+	if again := evalTree(sc, c.Data); !clock && again != first {
+		w.Violation("repeat-and-interleave", "C08/evaluation-not-repeatable", c, clipS(first, 300), clipS(again, 300),
+			fmt.Sprintf("the second evaluation of %q (fresh runner, equal data, nothing in between) differs from the first", clipS(c.Src, 120)))
+		return
+	}
 	if !clock && obs.ClockAvailable() {
 		for _, at := range []time.Time{time.Unix(1<<31+12345, 5), time.Unix(-1262304000, 0), time.Unix(4102444800+86399, 999999999)} {
 			var o string
@@ -439,7 +444,7 @@ func runC08(w *core.W) {
 	}
 	// literal spellings that the scanner has to rewrite (escapes, digit separators), and spread calls over data containers
 	pool = append(pool, hostileLiteralPool...)
-	pool = append(pool, "date(0, 3, 5)", "year(date(0, 1, 1))", "date(n0, 1, 1)", "timeFormat(date(0, 2, 29), '2006-01-02')", "addDate(t0, 0, 0, 0)", "year(t0) - year(date(1, 1, 1))", "date(0, 0, 0)", "weekDay(date(2024, 2, 29))")
+	pool = append(pool, "ym.true", "ym.null", "ym.k", "ym.name", "[ym.true, ym.true, ym.true]", "ym!.true + ''", "-max(d0, n0)", "-min(d0, 1)", "-finite(d0)", "-fid(d0)", "~fid(d0)", "-max(d0, 0) + d0", "date(0, 3, 5)", "year(date(0, 1, 1))", "date(n0, 1, 1)", "timeFormat(date(0, 2, 29), '2006-01-02')", "addDate(t0, 0, 0, 0)", "year(t0) - year(date(1, 1, 1))", "date(0, 0, 0)", "weekDay(date(2024, 2, 29))")
 	for _, f := range append(append([]string{}, stdFuncs...), safeBuiltins()...) {
 		for _, cont := range []string{"arr", "strs", "ms", "x0", "x1", "odd"} {
 			pool = append(pool, f+"("+cont+"...)", f+"(1, "+cont+"...)", "$v = "+cont+", "+f+"($v...)")
